@@ -46,6 +46,17 @@ inline i128 parse_i128(const char *s) {
     return neg ? -(i128)m : (i128)m;
 }
 
+inline std::string json_escape(const char *s) {
+    std::string o;
+    for (; *s; ++s) {
+        unsigned char c = (unsigned char)*s;
+        if (c == '"' || c == '\\') { o += '\\'; o += (char)c; }
+        else if (c < 0x20) { char b[8]; std::snprintf(b, sizeof b, "\\u%04x", c); o += b; }
+        else o += (char)c;
+    }
+    return o;
+}
+
 template <typename T> struct RepName;
 #define AUV_NM(T, s) template <> struct RepName<T> { static const char *get() { return s; } };
 AUV_NM(int8_t, "i8") AUV_NM(uint8_t, "u8") AUV_NM(int16_t, "i16") AUV_NM(uint16_t, "u16")
